@@ -31,12 +31,11 @@ class Emitter:
         n = 'lut%d' % len(self.lut_names)
         self.lut_names[key] = n
 
-        def tree(lo, hi, bit):
-            if all(tbl[i] == tbl[lo] for i in range(lo, hi)):
-                return _bv(w, tbl[lo])
-            mid = (lo + hi) // 2
-            return '(ite (= ((_ extract %d %d) x) #b1) %s %s)' % (bit, bit, tree(mid, hi, bit - 1), tree(lo, mid, bit - 1))
-        self.lines.append('(define-fun %s ((x (_ BitVec %d))) (_ BitVec %d) %s)' % (n, bw, w, tree(0, 1 << bw, bw - 1)))
+        # an uninterpreted function pinned on every point of its (<= 8 bit) domain: old z3 and cvc5
+        # decide this form in milliseconds where nested ite trees took minutes
+        self.lines.append('(declare-fun %s ((_ BitVec %d)) (_ BitVec %d))' % (n, bw, w))
+        for i, v in enumerate(tbl):
+            self.lines.append('(assert (= (%s %s) %s))' % (n, _bv(bw, i), _bv(w, v)))
         return n
 
     def _tblsel_fn(self, tbl, iw, w):
@@ -152,8 +151,11 @@ class Solver:
         self.which = which
         self.timeout_ms = timeout_ms
         self.proc = subprocess.Popen(SOLVERS[which], stdin=subprocess.PIPE, stdout=subprocess.PIPE,
-                                     stderr=subprocess.STDOUT, text=True, bufsize=1)
+                                     stderr=subprocess.STDOUT, bufsize=0)
+        self._buf = b''
+        self._out = []
         self.em = Emitter()
+        self.dead = False
         self.time_s = 0.0
         self.n_queries = 0
         self.stats = {'unsat': 0, 'sat': 0, 'unknown': 0}
@@ -175,20 +177,52 @@ class Solver:
     def _send(self, line):
         if self.log:
             self.log.write(line + '\n')
-        self.proc.stdin.write(line + '\n')
+        self._out.append(line + '\n')
+        if len(self._out) > 2000:
+            self._flush()
+
+    def _flush(self):
+        if self._out:
+            data = ''.join(self._out).encode()
+            self._out = []
+            try:
+                self.proc.stdin.write(data)
+            except BrokenPipeError:
+                raise SolverError('solver %s died' % self.which)
+
+    def _readline(self, deadline):
+        """one line from the solver, or None on watchdog expiry"""
+        import select
+        while b'\n' not in self._buf:
+            r, _, _ = select.select([self.proc.stdout], [], [], max(0.0, deadline - time.time()))
+            if not r:
+                return None
+            chunk = os.read(self.proc.stdout.fileno(), 65536)
+            if not chunk:
+                raise SolverError('solver %s died' % self.which)
+            self._buf += chunk
+        line, self._buf = self._buf.split(b'\n', 1)
+        return line.decode(errors='replace')
 
     def _read_answer(self):
-        self.proc.stdin.flush()
+        self._flush()
+        # watchdog: the solver's own timeout is not honoured during preprocessing of huge inputs
+        deadline = time.time() + self.timeout_ms / 1000.0 * 1.5 + 10
         while True:
-            line = self.proc.stdout.readline()
-            if line == '':
-                raise SolverError('solver %s died' % self.which)
+            line = self._readline(deadline)
+            if line is None:
+                self.proc.kill()
+                self.dead = True
+                return 'unknown'
             line = line.strip()
             if not line:
                 continue
             if line.startswith('(error'):
                 raise SolverError('%s: %s' % (self.which, line))
             return line
+
+    def _pending_line(self):
+        return False
 
     def flush_defs(self):
         for l in self.em.take_lines():
@@ -207,6 +241,10 @@ class Solver:
     def check(self, conds, want_model=False):
         """Is the conjunction of the width-1 terms `conds` satisfiable?
         Returns ('unsat'|'sat'|'unknown', model or None)."""
+        if self.dead:
+            self.stats['unknown'] += 1
+            self.n_queries += 1
+            return 'unknown', None
         lits = []
         for c in conds:
             if not isinstance(c, Term):
@@ -230,6 +268,8 @@ class Solver:
         if ans == 'timeout':
             ans = 'unknown'
         self.stats[ans] += 1
+        if self.dead:
+            return ans, None
         if ans == 'sat' and want_model:
             model = self.model()
         self._send('(pop 1)')
@@ -243,14 +283,15 @@ class Solver:
         for i in range(0, len(names), 200):
             chunk = names[i:i + 200]
             self._send('(get-value (%s))' % ' '.join('|%s|' % n for n in chunk))
-            self.proc.stdin.flush()
+            self._flush()
             buf = ''
             depth = 0
             started = False
             while True:
-                ch = self.proc.stdout.readline()
-                if ch == '':
-                    raise SolverError('solver died in get-value')
+                ch = self._readline(time.time() + 120)
+                if ch is None:
+                    raise SolverError('solver stalled in get-value')
+                ch += '\n'
                 buf += ch
                 depth += ch.count('(') - ch.count(')')
                 if '(' in ch:
@@ -259,15 +300,15 @@ class Solver:
                     break
             if '(error' in buf:
                 raise SolverError(buf)
-            for mm in re.finditer(r'\(\|([^|]*)\|\s+(#x[0-9a-fA-F]+|#b[01]+)\)', buf):
+            for mm in re.finditer(r'\((\|[^|]*\||[^\s()|]+)\s+(#x[0-9a-fA-F]+|#b[01]+)\)', buf):
                 v = mm.group(2)
-                model[mm.group(1)] = int(v[2:], 16) if v[1] == 'x' else int(v[2:], 2)
+                model[mm.group(1).strip('|')] = int(v[2:], 16) if v[1] == 'x' else int(v[2:], 2)
         return model
 
     def close(self):
         try:
             self._send('(exit)')
-            self.proc.stdin.flush()
+            self._flush()
             self.proc.wait(timeout=5)
         except Exception:
             self.proc.kill()
